@@ -223,7 +223,7 @@ def library_vocab_candidates(doc, ver, cname):
 
 
 # ---- strategies -----------------------------------------------------------------------------------------------
-OPTS = {"ts_max_digits": 6, "selectors": "any", "max_optional": 8}
+OPTS = {"ts_max_digits": 6, "selectors": "any", "max_optional": 8, "toplevel_ext": True}
 
 
 @st.composite
